@@ -17,13 +17,14 @@ impl Parser for Typedef {
                 tag("typedef"),
                 blank,
                 Type::parse,
-                blank,
+                opt(blank),
                 Ident::parse,
                 opt(blank),
                 opt(Annotations::parse),
+                opt(blank),
                 opt(list_separator),
             )),
-            |(_, _, r#type, _, alias, _, annotations, _)| Typedef {
+            |(_, _, r#type, _, alias, _, annotations, _, _)| Typedef {
                 r#type,
                 alias,
                 annotations: annotations.unwrap_or_default(),
